@@ -194,11 +194,15 @@ def container_conversions(chk, F, templates_ok):
                 continue
             chk.count("SubsetOf items")
             try:
-                r = unref(mk_interp(F).call_body(body, [deriv("s", ps)]))
-                o = unref(r.f["0"])
-                ok = (o.some and equal(unref(o.v).p, conv(s))) if ps else (not o.some)
-                chk.ob(key, ok, "%s maps every element and keeps absence" % meth, body_loc(F, body),
-                       found=repr(o)[:120], required=("Some(%s)" % conv(s).show()) if ps else "None")
+                # every path (a conversion that branches on the VALUES of the elements -- say, drops a present part whose entries
+                # are all zero -- must still satisfy the obligation on each branch)
+                paths = run_paths_conv(F, body, lambda: [deriv("s", ps)], None)
+                for ctx, r in paths:
+                    r = unref(r)
+                    o = unref(r.f["0"])
+                    ok = (o.some and equal(unref(o.v).p, conv(s))) if ps else (not o.some)
+                    chk.ob(key if len(paths) == 1 else key + "|path=" + path_descr(ctx), ok, "%s maps every element and keeps absence" % meth,
+                           body_loc(F, body), found=repr(o)[:120], required=("Some(%s)" % conv(s).show()) if ps else "None")
             except Unsupported as ex:
                 chk.undecide(key, "unsupported: %s" % ex, body_loc(F, body))
         b_from, b_in = F.impl_item(imp, "from_superset"), F.impl_item(imp, "is_in_subset")
